@@ -27,7 +27,7 @@ theorem foldl_mset_keys (l : List Nat) : ∀ (m : Map) (k : Nat),
       · right; simp [h]
     · right; simp [h]
 
-theorem oneRef_keys (parts : List String) (d : DefInfo) (m : Map) (n : NameInfo) (k : Nat)
+theorem oneRef_keys (parts : ParenRule) (d : DefInfo) (m : Map) (n : NameInfo) (k : Nat)
     (h : k ∈ keysOf (oneRef parts d m n)) :
     k ∈ keysOf m ∨ k ∈ n.id :: n.parentId :: n.before := by
   unfold oneRef at h
@@ -42,7 +42,7 @@ theorem oneRef_keys (parts : List String) (d : DefInfo) (m : Map) (n : NameInfo)
     · left; exact h
     · right; simp [h]
 
-theorem foldl_oneRef_keys (parts : List String) (d : DefInfo) (refs : List NameInfo) :
+theorem foldl_oneRef_keys (parts : ParenRule) (d : DefInfo) (refs : List NameInfo) :
     ∀ (m : Map) (k : Nat), k ∈ keysOf (refs.foldl (oneRef parts d) m) →
       k ∈ keysOf m ∨ k ∈ refs.flatMap (fun n => n.id :: n.parentId :: n.before) := by
   induction refs with
@@ -67,5 +67,118 @@ theorem dropLast_flatten_getLast (ls : List Str) (last : Str) (h : ls.getLast? =
     exact this.symm
   conv => rhs; rw [this]
   simp
+
+/-! ## lookups in the maps -/
+
+theorem get_mset_other (m : Map) (i j : Nat) (s : Str) (h : j ≠ i) :
+    (mset m i s).get? j = m.get? j := by
+  unfold mset Map.get?
+  induction m with
+  | nil => simp [List.find?, h.symm]
+  | cons a m ih =>
+    by_cases ha : a.1 = i
+    · have : (a.1 != i) = false := by simp [ha]
+      simp only [List.filter_cons, this, Bool.false_eq_true, ↓reduceIte, List.find?_cons]
+      have hj : (a.1 == j) = false := by simp [ha, h.symm]
+      simp only [hj]
+      exact ih
+    · have : (a.1 != i) = true := by simp [ha]
+      simp only [List.filter_cons, this, ↓reduceIte, List.cons_append, List.find?_cons]
+      cases hj : (a.1 == j) with
+      | true => rfl
+      | false => exact ih
+
+theorem get_mset_self (m : Map) (i : Nat) (s : Str) : (mset m i s).get? i = some s := by
+  unfold mset Map.get?
+  induction m with
+  | nil => simp
+  | cons a m ih =>
+    by_cases ha : a.1 = i
+    · have : (a.1 != i) = false := by simp [ha]
+      simp only [List.filter_cons, this, Bool.false_eq_true, ↓reduceIte]
+      exact ih
+    · have : (a.1 != i) = true := by simp [ha]
+      have hj : (a.1 == i) = false := by simp [ha]
+      simp only [List.filter_cons, this, ↓reduceIte, List.cons_append, List.find?_cons, hj]
+      exact ih
+
+theorem get_foldl_mset_other (l : List Nat) (j : Nat) (h : j ∉ l) : ∀ m : Map,
+    (l.foldl (fun m i => mset m i []) m).get? j = m.get? j := by
+  induction l with
+  | nil => intro m; rfl
+  | cons a l ih =>
+    intro m
+    simp only [List.foldl_cons]
+    rw [ih (fun hh => h (List.mem_cons_of_mem _ hh))]
+    exact get_mset_other m a j [] (fun e => h (by simp [e]))
+
+
+/-! ## the parenthesisation table -/
+
+/-- EXPRESSION_PARTS as in the original source (the translator's `Gen.C06.expressionParts` is
+compared with this in `Props/C06.lean`) -/
+def originalParts : List String := ["or_test", "and_test", "not_test", "comparison", "expr", "xor_expr",
+  "and_expr", "shift_expr", "arith_expr", "term", "factor", "power", "atom_expr"]
+
+/-- the parent types a sound rule needs beyond EXPRESSION_PARTS -/
+def fixExtra : List String := ["test", "star_expr", "sync_comp_for", "comp_if"]
+
+/-- the weakest rule of the proposed shape -/
+def minimalFixedRule : ParenRule := ⟨originalParts, fixExtra, true, false⟩
+
+def rowName (p : Ctx × Rhs) : String × String := (p.1.name, p.2.type)
+
+theorem mem_allPairs_iff (c : Ctx) (r : Rhs) : (c, r) ∈ allPairs ↔ c ∈ allCtx ∧ r ∈ allRhs := by
+  unfold allPairs
+  simp only [List.mem_flatMap, List.mem_map, Prod.mk.injEq]
+  constructor
+  · rintro ⟨c', hc', r', hr', rfl, rfl⟩; exact ⟨hc', hr'⟩
+  · rintro ⟨hc, hr⟩; exact ⟨c, hc, r, hr, rfl, rfl⟩
+
+/-- adding parent types to the rule only adds parentheses -/
+theorem jediParens_mono (R R' : ParenRule) (hp : ∀ x ∈ R.parts, x ∈ R'.parts)
+    (he : ∀ x ∈ R.extra, x ∈ R'.extra) (hd : R.dictRule = true → R'.dictRule = true)
+    (rt pt : String) (tn ds : Bool) (h : jediParens R rt pt tn ds = true) :
+    jediParens R' rt pt tn ds = true := by
+  unfold jediParens at h ⊢
+  simp only [Bool.or_eq_true, Bool.and_eq_true, List.contains_iff_mem] at h ⊢
+  rcases h with (((h | h) | h) | h) | h
+  · exact Or.inl (Or.inl (Or.inl (Or.inl h)))
+  · exact Or.inl (Or.inl (Or.inl (Or.inr (hp _ h))))
+  · exact Or.inl (Or.inl (Or.inr (he _ h)))
+  · exact Or.inl (Or.inr ⟨⟨hd h.1.1, h.1.2⟩, h.2⟩)
+  · exact Or.inr h
+
+/-- the weakest rule of the proposed shape is sound on the whole table (58 slots x 20 kinds) -/
+theorem minimalFixedRule_sound :
+    ∀ c ∈ allCtx, ∀ r ∈ allRhs, needsParens c r = true →
+      jediParens minimalFixedRule r.type c.parent c.trailerNext c.dstar = true := by
+  decide +kernel
+
+/-- outside the rows `unsoundPairs` lists, the rule adds the parentheses the grammar needs -/
+theorem sound_outside_unsound (R : ParenRule) (c : Ctx) (hc : c ∈ allCtx) (r : Rhs) (hr : r ∈ allRhs)
+    (hn : rowName (c, r) ∉ (unsoundPairs R).map rowName) (h : needsParens c r = true) :
+    jediParens R r.type c.parent c.trailerNext c.dstar = true := by
+  cases hj : jediParens R r.type c.parent c.trailerNext c.dstar with
+  | true => rfl
+  | false =>
+    exfalso
+    apply hn
+    refine List.mem_map.mpr ⟨(c, r), ?_, rfl⟩
+    unfold unsoundPairs
+    simp only [List.mem_filter, Bool.and_eq_true, Bool.not_eq_true']
+    exact ⟨(mem_allPairs_iff c r).mpr ⟨hc, hr⟩, h, hj⟩
+
+/-- every row `unsoundPairs` lists is a counter-example -/
+theorem unsound_are_counterexamples (R : ParenRule) :
+    ∀ p ∈ (unsoundPairs R).map rowName, ∃ c ∈ allCtx, ∃ r ∈ allRhs, c.name = p.1 ∧ r.type = p.2 ∧
+      needsParens c r = true ∧ jediParens R r.type c.parent c.trailerNext c.dstar = false := by
+  intro p hp
+  obtain ⟨⟨c, r⟩, hcr, rfl⟩ := List.mem_map.mp hp
+  unfold unsoundPairs at hcr
+  simp only [List.mem_filter, Bool.and_eq_true, Bool.not_eq_true'] at hcr
+  obtain ⟨hmem, hneed, hj⟩ := hcr
+  obtain ⟨hc, hr⟩ := (mem_allPairs_iff c r).mp hmem
+  exact ⟨c, hc, r, hr, rfl, rfl, hneed, hj⟩
 
 end JediModel.Refactor
